@@ -83,6 +83,21 @@ def length_scripts(group, outdir):
         vflib.write_ndjson(os.path.join(outdir, "beh_%s_len%s.ndjson" % (group, str(n).replace("-", "split"))), lines)
 
 
+def fault_then_next_scripts(outdir):
+    """Hand-made behaviours of Transport.tla for G_mixed_fixed (a: bcast S1, b: udp set-address S2, c: tcp status S3 on one
+    fixed bind port): the TCP call meets each peer fault in turn, and the calls that queue behind it must be served
+    normally afterwards - whatever an error path leaves behind (a lock, a socket) shows in the NEXT call."""
+    os.makedirs(outdir, exist_ok=True)
+    g = "G_mixed_fixed"
+    hdr = {"a": "Cfg", "T": 3, "fixed": True, "group": g,
+           "calls": {"a": {"path": "bcast", "kind": "normal", "ctl": "S1"}, "b": {"path": "udp", "kind": "setaddr", "ctl": "S2"}, "c": {"path": "tcp", "kind": "status", "ctl": "S3"}}}
+    for fault in ("refused", "reset", "silence", "blackhole"):
+        lines = [hdr, {"a": "Enter", "c": "c", "t": 0}, {"a": "Send", "c": "c", "t": 0, "plan": [[fault, 0]]},
+                 {"a": "Enter", "c": "a", "t": 1}, {"a": "Enter", "c": "b", "t": 1},
+                 {"a": "Send", "c": "a", "t": 1, "plan": [["valid", 1]]}, {"a": "Send", "c": "b", "t": 1, "plan": [["silence", 0]]}]
+        vflib.write_ndjson(os.path.join(outdir, "beh_%s_fault_%s.ndjson" % (g, fault)), lines)
+
+
 def rig(group, scripts_dir, layouts, parts, tick, race=False, out=None, seed=None, port_extra=0):
     out = out or vflib.sub("rigl-" + group)
     exe = vflib.build_harness(race)
@@ -155,6 +170,8 @@ def run_groups(v, groups, n, tick=50, race=False, parts_fixed=6, classify=None, 
     os.environ["VF_PROP"] = v.prop
     with ThreadPoolExecutor(max_workers=8) as ex:
         list(ex.map(lambda g: flood_scripts(g, sdir, n) if g.startswith("G_flood") else generate(g, n, vflib.seed() + 17, sdir), groups))
+    if "G_mixed_fixed" in groups:
+        fault_then_next_scripts(sdir)
     if lengths:
         for g in groups:
             if g in ("G_bcast_eph", "G_udp_eph", "G_tcp_eph"):
